@@ -157,12 +157,14 @@ class Parser:
                 depth += (v == '<') - (v == '>')
         self.expect('(')
         params = []
+        self_mut = False
         while not self.accept(')'):
-            self.accept('&')
-            self.accept('mut')
+            amp = self.accept('&')
+            mt = self.accept('mut')
             if self.peek()[1] == 'self':
                 self.next()
                 params.append(('self', 'Self'))
+                self_mut = bool(amp and mt)
             else:
                 pn = self.next()[1]
                 self.expect(':')
@@ -172,7 +174,7 @@ class Parser:
         if self.accept('->'):
             ret = self.parse_type()
         body = self.parse_block()
-        return {'name': name, 'params': params, 'ret': ret, 'body': body, 'consts': consts}
+        return {'name': name, 'params': params, 'ret': ret, 'body': body, 'consts': consts, 'self_mut': self_mut}
 
     # statements --------------------------------------------------------------------------------
     def parse_block(self):
@@ -199,9 +201,15 @@ class Parser:
             self.next()
             self.expect('[')
             depth = 1
+            hook = False
             while depth:
                 x = self.next()[1]
+                hook = hook or 'recmo_uint_verif' in x
                 depth += (x == '[') - (x == ']')
+            if hook:
+                # `#[cfg(feature = "recmo_uint_verif")] <statement>`: the verification hooks (add-only instrumentation,
+                # absent with the guard off) are not part of the translated function
+                self.parse_stmt()
             return None
         if v in ('debug_assert!', 'debug_assert_eq!', 'debug_assert_ne!', 'assume!'):
             self.next()
@@ -1082,7 +1090,18 @@ class Emitter:
                 return self.finish(result, env)
             return self.expr(s[1], env, exp)
         if k == 'expr':
-            return self.stmts(rest, env, exp, result)
+            e = s[1]
+            if (e[0] == 'mcall' and e[1][0] == 'path' and len(e[1][1]) == 1 and env.get(e[1][1][0]) == 'uint'
+                    and ('Uint::' + e[2]) in self.fns and len(self.fns['Uint::' + e[2]]) > 5 and self.fns['Uint::' + e[2]][5]):
+                # `x.method(args);` with `&mut self`: rebind x to the returned new value
+                sig = self.fns['Uint::' + e[2]]
+                if not (isinstance(sig[2], str) and sig[2] == 'uint'):
+                    raise TranslateError('statement call of a `&mut self` method that also returns a value')
+                se, _ = self.mcall(e, env, None)
+                body, tb = self.stmts(rest, env, exp, result)
+                return 'let %s := %s\n  %s' % (lean_ident(e[1][1][0]), se, body), tb
+            # any other expression statement could have an effect the translation would lose
+            raise TranslateError('expression statement with untranslated effect: %r' % (e[:3],))
         raise TranslateError('unsupported statement %r' % (k,))
 
     def ends_with_return(self, blk):
@@ -1117,11 +1136,11 @@ class Emitter:
         self.inner_rt = rt
         self.mut_ret = None
         self.const_generics = list(fn.get('consts', []))
-        muts = [n for n, t in fn['params'] if self.ty(t) == 'mutslice']
+        muts = [n for n, t in fn['params'] if self.ty(t) == 'mutslice' or (n == 'self' and fn.get('self_mut'))]
         if muts:
-            # `&mut [u64]` parameters: the function returns their final contents in front of its own result
+            # `&mut [u64]` parameters (and `&mut self`): the function returns their final contents in front of its own result
             unit = isinstance(rt, tuple) and rt[0] == 'tuple' and not rt[1]
-            parts = ['slice'] * len(muts) + ([] if unit else [rt])
+            parts = [('uint' if n == 'self' else 'slice') for n in muts] + ([] if unit else [rt])
             rt = parts[0] if len(parts) == 1 else ('tuple', parts)
             self.mut_ret = (muts, unit)
         self.cur_rt = rt
@@ -1204,8 +1223,8 @@ def translate(items, namespace='Ruint.Gen', imports=('Ruint.Gen.Prelude',), fns=
             em.externs = it.get('externs', {})
             code = em.function(fn, it['lean'])
             key = it.get('key', it['fn'])
-            fns[key] = (it['lean'], [em.ty(t) for _, t in fn['params']], em.ty_deep(fn['ret']), em.uses_fuel,
-                        list(fn.get('consts', [])))
+            fns[key] = (it['lean'], [em.ty(t) for _, t in fn['params']], em.cur_rt, em.uses_fuel,
+                        list(fn.get('consts', [])), bool(fn.get('self_mut')))
             for alias in it.get('aliases', []):
                 fns[alias] = fns[key]
             out.append('/-- `%s` (%s) -/\n%s' % (it['fn'], it['file'].split('/src/')[-1], code))
@@ -1269,7 +1288,8 @@ def lehmer_items(repo):
 
 def uint_items(repo):
     out = []
-    for f, fn in (('lib.rs', 'masked'), ('add.rs', 'overflowing_add'), ('add.rs', 'overflowing_sub')):
+    for f, fn in (('lib.rs', 'masked'), ('add.rs', 'overflowing_add'), ('add.rs', 'overflowing_sub'),
+                  ('lib.rs', 'apply_mask'), ('bits.rs', 'overflowing_shl'), ('bits.rs', 'overflowing_shr')):
         out.append({'file': repo + '/src/' + f, 'fn': fn, 'lean': 'uint_' + fn, 'key': 'Uint::' + fn, 'self_ty': 'uint',
                     'uint': True, 'group': 'uint'})
     return out
